@@ -1,4 +1,4 @@
-(* C28 driver.  case: "<mode> <mask> <delay> <prog>,... [<dir> <vals>,...]" (see harness/h_c28.cpp); impl result:
+(* C28 driver.  case: "<mode> <mask> <delay> <prog>,... [<dir> <vals>,... [<kind> <layout> <locs>,...]]" (see harness/h_c28.cpp); impl result:
    "rets=.. stop=.. file=..".  The model is run under a schedule built (in Coq: sched_for) from what the file
    determines: the order in which the producers' lines entered the queue.  In every mode the modelled logger thread
    writes everything it can reach before stop() returns, regardless of what the implementation did (with the
@@ -82,4 +82,6 @@ let () = run_protocol (fun case impl ->
   match words case with
   | [_mode; mask; _delay; progs] -> go mask progs "0" "-"
   | [_mode; mask; _delay; progs; dir; vals] -> go mask progs dir vals
+  (* logger kind, layout flags, file/line strings: they change the layout of a line, not what the harness extracts from it *)
+  | [_mode; mask; _delay; progs; dir; vals; _kind; _layout; _locs] -> go mask progs dir vals
   | _ -> ("BAD-CASE", false, false))
